@@ -126,6 +126,7 @@ inductive Step where
   | linkClose (s : Slot)
   | linkRecv (s : Slot)
   | linkGone (s : Slot)
+  | agentTerminate
   | rootProc
   | rootRespond
   | rootDrop
@@ -272,6 +273,7 @@ def step (st : St) : Step → Option St
     if ch.kind = .queue && ch.acked && ch.open_ && ch.nrecv = ch.hist.length && !senderHeld st s then
       some { st with chans := upd st.chans s { ch with sawGone := true } }
     else none
+  | .agentTerminate => some (st.send .terminate)
   | .rootProc =>
     if st.rootTerminated || st.rootDropped || st.responding.isSome then none else
     match st.rootq with
